@@ -45,6 +45,8 @@ K.mk_map('C01', False)
 K.mk_map('C01', True)
 K.mk_tuple('C01', False)
 K.mk_tuple('C01', True)
+K.mk_tuple('C01', False, empty_ok=True)
+K.mk_tuple('C01', True, empty_ok=True)
 K.mk_vector('C01', True)
 K.mk_vector('C01', False)
 
